@@ -138,3 +138,15 @@ func ZZ_C03_Proto() {
 	s := zzNewStream(0, 4)
 	zzCheckEquiv(e, s)
 }
+
+// time leaves: relative durations (symbolic) and absolute sample dates mixed
+func ZZ_C03_Time() {
+	zzInstallParsers()
+	keys := []string{"ftime", "ltime", "time"}
+	t := zz.Choice("shape", zz.Param("timeshapes", 8))
+	e := zzShape(t, func() *zzExpr {
+		return zzTimeLeaf(keys[zz.Choice("timekey", zz.Param("timekeys", 3))], zz.Choice("timeform", 5))
+	})
+	s := zzNewStream(0, 4)
+	zzCheckEquiv(e, s)
+}
